@@ -78,7 +78,7 @@ func q(x, unit float64) (int, bool) {
 func (c *Call) record() (*event, []core.Mismatch) {
 	r := CallLinebreak(c.items(), c.Width)
 	if r.Hung {
-		return nil, []core.Mismatch{{Signature: "timeout-linebreak", Detail: "Linebreak did not return within 10 s"}}
+		return nil, []core.Mismatch{{Signature: "timeout-linebreak", Detail: fmt.Sprintf("Linebreak did not return within %v", Watchdog)}}
 	}
 	if r.Panic != "" {
 		return nil, []core.Mismatch{{Signature: "panic-linebreak", Detail: r.Panic}}
